@@ -177,8 +177,44 @@ def gen_cases(rng, tier):
         cases.append({'name': 'cloud-%s-%s-%d' % (ty, shape, i), 'lines': lines, 'meta': meta})
     for i in range(24 if tier == 'quick' else 480):
         cases.append(_history_case(rng, tier, i, TYPES[i % 8]))
+    for i in range(16 if tier == 'quick' else 160):
+        cases.append(_lattice_case(rng, i, TYPES[i % 8]))
     cases.append(_protocol_case(rng))
     return cases
+
+
+def _lattice_case(rng, i, ty):
+    """NEARLY isotropic neighbourhoods on exactly representable data: two clusters of k points with small-integer coordinates, far
+    apart (k = cluster size, so the k nearest neighbours of every point are its own cluster); sums and squares stay below 2^24, the
+    mean is an integer and the covariance exactly diagonal, so float and double arithmetic of the estimator is exact (up to one
+    uniform division by k) and the direction of least variance is an axis. The relative eigen-gap is 4e-6 .. 1e-3: inside the
+    property's domain (> 1e-6) but far below what rounding would let the check resolve on general data (seeded change c09d: the
+    normal replaced by the line of sight when (l1 - l0) <= 100 * epsilon * l1 — 1.19e-5 for the float types)."""
+    dim = _dim(ty)
+    A = 1000.0
+    a, b = rng.choice([(1, 3), (4, 5), (9, 10), (4, 6), (49, 50), (10, 46)])
+    if rng.chance(0.5):
+        swap = True
+    else:
+        swap = False
+    pts = []
+    centres = [(30000.0, 20000.0, 10000.0), (-20000.0, 30000.0, -10000.0)]
+    if rng.chance(0.5):
+        centres = [(3000.0, -2000.0, 1000.0), (-2000.0, -3000.0, 4000.0)]
+    for c in centres:
+        if dim == 2:
+            offs = [(sx * A, sy * A) for sx in (-1, 1) for sy in (-1, 1)]
+            ax, ay = ((a, 0.0), (0.0, b)) if not swap else ((b, 0.0), (0.0, a))
+            offs += [(ax[0], 0.0), (-ax[0], 0.0), (0.0, ay[1]), (0.0, -ay[1])]
+        else:
+            B = 1100.0
+            offs = [(sx * A, sy * A, sz * B) for sx in (-1, 1) for sy in (-1, 1) for sz in (-1, 1)]
+            av, bv = (a, b) if not swap else (b, a)
+            offs += [(float(av), 0.0, 0.0), (-float(av), 0.0, 0.0), (0.0, float(bv), 0.0), (0.0, -float(bv), 0.0)]
+        pts += [[c[j] + o[j] for j in range(dim)] for o in offs]
+    k = len(pts) // 2
+    line, sp = _line(ty, k, rng.choice(OVERLOADS), rng.choice(INITS), pts)
+    return {'name': 'lattice-%s-%d' % (ty, i), 'lines': [line], 'meta': {'shape': 'lattice', 'exact_lattice': True, 'ty': ty, 'k': k, 'rots': []}}
 
 
 def _protocol_case(rng):
@@ -367,13 +403,16 @@ def _coords(op):
     return [v[dim * i: dim * (i + 1)] for i in range(n)]
 
 
-def _tol(ty, d, p):
+def _tol(ty, d, p, exact=False):
     """comparison tolerance of one point: the property's base tolerance plus the first-order rounding bound of an eigenvector
-    of a covariance accumulated in the scalar type (perturbation of C over the eigen-gap)"""
+    of a covariance accumulated in the scalar type (perturbation of C over the eigen-gap); `exact`: the lattice stream, whose
+    covariance is accumulated without rounding (only the uniform division by k rounds: entries relative eps)"""
     lmax_gap = d['l1'] - (d['rcurv'] * d['tr'])          # l1 - l0 of the reference covariance
     pn = math.sqrt(sum(c * c for c in p))
     if not (lmax_gap > 0):
         return float('inf')
+    if exact:
+        return _base(ty) + 4.0 * _eps(ty) * d['tr'] / lmax_gap
     return _base(ty) + 64.0 * _eps(ty) * (d['tr'] + pn * math.sqrt(max(d['tr'], 0.0))) / lmax_gap
 
 
@@ -415,7 +454,7 @@ def compare(case, li, op, impl, model):
     for x, y, p in zip(a, b, pts):
         if not _in_scope(ty, x):
             continue
-        tol = _tol(ty, x, p)
+        tol = _tol(ty, x, p, exact=bool(case.get('meta', {}).get('exact_lattice')))
         if any(abs(u - v) > tol for u, v in zip(x['n'], y['n'])):
             # the orientation test itself is ambiguous when the point lies (nearly) in the estimated tangent plane
             pn = math.sqrt(sum(c * c for c in p)) or 1.0
@@ -492,7 +531,17 @@ def oracle(case, out, stats):
                 stats['out_of_scope'] = stats.get('out_of_scope', 0) + 1
                 continue
             stats['in_scope'] = stats.get('in_scope', 0) + 1
-            tol = _tol(ty, d, p)
+            tol = _tol(ty, d, p, exact=bool(meta.get('exact_lattice')))
+            if meta.get('exact_lattice'):
+                # exact data: the returned normal must be the least-variance AXIS itself — excess variance (as a fraction of the
+                # trace) = gap * sin^2(angle to the axis); the bound 1e-3 (0.03 rad) is > 2000 times the largest ratio observed on the unchanged library
+                # (3.6e-7: the float 3D case, whose division by k = 12 rounds)
+                stats['exact_lattice_points'] = stats.get('exact_lattice_points', 0) + 1
+                ratio = d['lv'] / d['gap'] if d['gap'] > 0 else 0.0
+                stats['max_lv_over_gap_exact_lattice'] = max(stats.get('max_lv_over_gap_exact_lattice', 0.0), ratio)
+                if ratio > 1e-3:
+                    bad('least-variance', 'point %d (exactly representable lattice neighbourhood, relative eigen-gap %r): the normal is %.3g rad '
+                        'away from the direction of least variance (excess variance %r of the trace)' % (i, d['gap'], math.sqrt(min(ratio, 1.0)), d['lv']))
             if not d['lv'] <= base + tol * tol:
                 bad('least-variance', 'point %d: excess variance along the normal %r of the trace (gap %r)' % (i, d['lv'], d['gap']))
             if not d['res'] <= 4 * tol:
